@@ -226,7 +226,8 @@ Definition replicate_change (n : node) (dbn : str) (ch : change) : node :=
 
 Definition conflict_key (ch : change) : str :=
   "$conflicts_" +++ c_key ch +++ "_" +++ N_to_str (c_opp ch).
-Definition list_conflicts_keys (d : db) (key : str) : list str := list_keys d ("$conflicts_" +++ key) true.
+Definition list_conflicts_keys (d : db) (key : str) : list str :=
+  list_keys d (if String.eqb key "" then "$conflicts_*" else "$conflicts_" +++ key +++ "_*") true.
 
 Definition has_arbiter (d : db) : bool :=
   match assoc_get String.eqb "$conflicts" (d_watch d) with Some _ => true | None => false end.
@@ -258,7 +259,7 @@ Definition apply_change (n : node) (dbn : str) (ch : change) : node * resp :=
                 let info := if Z.eqb old_version (-2)
                             then match rev pend with
                                  | last :: _ => Some (last, version + Z.of_nat (List.length pend))
-                                 | [] => None            (* pendding_conflict.last().unwrap() *)
+                                 | [] => Some (v_val old, old_version)   (* fix: was last().unwrap() *)
                                  end
                             else Some (v_val old, old_version) in
                 match info with
@@ -597,7 +598,7 @@ Definition handle (n : node) (c : nat) (rq : request) : node * resp :=
         | _ => (n2, r)
         end
       else (n, RError "Create database only allow from primary!")
-  | RqElectionActive _ => (n, ROk)
+  | RqElectionActive _ => if negb auth then (n, not_auth) else (n, ROk)    (* fix H9.1 *)
   | RqElectionWin => if negb auth then (n, not_auth) else (election_win n, ROk)
   | RqElection id _ => if negb auth then (n, not_auth) else (election_eval n id, ROk)
   | RqSetPrimary name =>
@@ -665,7 +666,7 @@ Definition handle (n : node) (c : nat) (rq : request) : node * resp :=
         (send n c ("process-info " +++ nlS +++ "process_id: " +++ N_to_str (n_pid n) +++ nlS), ROk)
       else (n, ROk)
   | RqArbiter =>
-      match guard_db n c with
+      match guard_safe n c "$conflicts" PRead with      (* fix H9.3 *)
       | GStop n' r => (n', r)
       | GGo dbn d => (register_arbiter n dbn c, ROk)
       end
@@ -761,6 +762,7 @@ Fixpoint process (fuel : nat) (n : node) (c : nat) (line : str) : node * resp :=
           let '(n1, r) :=
             match rq with
             | RqReplicateRequest inner opp_id =>
+                if negb (s_auth (get_sess n c)) then (n, not_auth) else      (* fix H9.2 *)
                 let n0 := send n c ("ack " +++ N_to_str opp_id +++ " " +++ n_addr n +++ " " +++ nlS) in
                 process k n0 c inner
             | _ => handle n c rq
@@ -794,3 +796,35 @@ Definition init_node (user pwd addr : str) (pid : N) (r : role) (clock0 : N) : n
   let '(n3, id2) := tick n2 in
   let '(adm2, _, _) := set_value adm (mkCh "$admin" "{}" (-1) id2 false) in
   put_db n3 "$admin" adm2.
+
+(* ---- HTTP transport (network/http_ops.rs::process_commands) ------------------ *)
+(* one entry per non-blank statement: an error => its message (and whatever the
+   refused command queued is discarded, fix H20.1); success => the first queued
+   message or "empty".  Afterwards the session is released. *)
+Inductive http_out := HEntries (l : list str) | HWorkerDied.
+
+Fixpoint http_commands (n : node) (c : nat) (cmds : list str) (acc : list str) : node * option (list str) :=
+  match cmds with
+  | [] => (n, Some acc)
+  | cmd :: rest =>
+      let clean := trim cmd in
+      if String.eqb clean "" then http_commands n c rest acc
+      else
+        let '(n1, r) := step n c clean in
+        match r with
+        | RPanic => (n1, None)
+        | RError msg => http_commands (fst (drain n1 c)) c rest (acc ++ [msg])
+        | RVersionError _ _ _ _ _ _ => http_commands (fst (drain n1 c)) c rest (acc ++ ["Invalid version!"])
+        | _ =>
+            let s := get_sess n1 c in
+            match s_inbox s with
+            | m :: more => http_commands (put_sess n1 c (mkSess (s_auth s) (s_db s) (s_user s) (s_member s) more)) c rest (acc ++ [m])
+            | [] => http_commands n1 c rest (acc ++ ["empty"])
+            end
+        end
+  end.
+
+Definition http_request (n : node) (body : str) : node * option (list str) :=
+  let '(n0, c) := connect n in
+  let '(n1, out) := http_commands n0 c (split_char ";" body) [] in
+  (disconnect n1 c, out).
